@@ -279,6 +279,8 @@ MUST_FIRE += [
     ("m107", ["C14"], ["K13"], rep1(S + "stabilizer.py", "            ZX, ZZ = data[0], data[1]", "            ZX, ZZ = data[1], data[0]"), "matrix form: X and Z parts exchanged"),
     ("m108", ["C08"], ["G4"], rep1(S + "rotate_stabilizer_into_state.py", "    if used < num_qubits and not allow_underconstrained:", "    if used < num_qubits and allow_underconstrained:"), "underconstrained check inverted inside the synthesis: by default nothing is rejected"),
     ("m109", ["C08"], ["G4"], rep1(S + "rotate_stabilizer_into_state.py", "            if curr_stab.z.any() and not allow_redundant:", "            if False and curr_stab.z.any() and not allow_redundant:"), "redundancy check switched off"),
+    ("m110", ["C10"], ["W2"], rep1(S + "tomography.py", '        circuit.metadata["readout info"] = ReadoutInfo(readout_circuit, preparation_circuit.num_qubits, measured_qubits)', '        circuit.metadata["readout info"] = ReadoutInfo(preparation_circuit.num_qubits, readout_circuit, measured_qubits)'), "readout record built with circuit and register width exchanged"),
+    ("m111", ["C10", "C11"], ["W2", "W1"], rep1(S + "tomography.py", "        circuit.measure_all()\n        if circuit.metadata is None:", "        if circuit.metadata is None:"), "tomography circuits are never measured"),
     ("m95", ["C19"], ["K12"], rep1(S + "graph.py", "    def compress(self) -> int:", "    def compress(self) -> int:\n        if getattr(self, \"_id\", None) is not None:\n            return self._id\n        self._id = self._compress()\n        return self._id\n\n    def _compress(self) -> int:"), "graph id remembered by the object and never invalidated"),
     ("m72", ["C13"], ["A3"], rep1(S + "circuit_lookup.py", "result.circuits = [circuit.copy() for circuit in self.circuits]", "result.circuits = list(self.circuits)"), "fresh list of the cached circuits"),
 ]
